@@ -60,7 +60,7 @@ func (h *Sources) Save() {
 	// Make a copy of the cursor and ensure its position.
 	cur := core.NewCursor(h.line)
 	cur.Set(h.cursor.Pos())
-	cur.CheckCommand()
+	cur.CheckAppend()
 
 	// And save the item.
 	line.items = append(line.items, undoItem{
